@@ -143,6 +143,8 @@ func main() {
 	only := fs.String("only", "", "run only scenarios whose name contains this")
 	procs := fs.Int("j", runtime.NumCPU(), "worker processes")
 	buildOnly := fs.Bool("build-only", false, "build the binaries and stop (setup warm-up)")
+	extra := fs.String("params", "", "extra scenario parameters k=v,... appended to the selected scenarios (experiments)")
+	budget := fs.Float64("budget", 0, "override the per-worker budget in seconds (experiments)")
 	_ = fs.Parse(os.Args[2:])
 	if *tier == "" {
 		*tier = "quick"
@@ -203,6 +205,12 @@ func main() {
 		for _, sc := range scs {
 			if *only != "" && !strings.Contains(sc.Name, *only) {
 				continue
+			}
+			if *extra != "" {
+				sc.Params += "," + *extra
+			}
+			if *budget > 0 {
+				sc.BudgetS = *budget
 			}
 			k := sc.Build.key()
 			builds[k] = sc.Build
